@@ -73,7 +73,7 @@ def warm_quick():
   for cf in ('LiftLoop_scan.cfg', 'LiftLoop_vmap.cfg', 'LiftLoop_rscan.cfg'):
     runs.append(('LiftLoop', cf, dict(workers=1, timeout=1800)))
   runs.append(('LiftDiff', 'LiftDiff.cfg', dict(workers=1, timeout=900)))
-  for md in ('vmap', 'scan', 'grad', 'alias'):
+  for md in ('vmap', 'scan', 'grad', 'alias', 'carry2'):
     runs.append(('NnxLoop', f'NnxLoop_{md}.cfg', dict(workers=1, timeout=900)))
   for md in ('axis', 'rules'):
     runs.append(('Partition', f'Partition_{md}.cfg', dict(workers=1, timeout=900)))
